@@ -132,12 +132,15 @@ func (c *cdbdriver) GetLocationByMap(ipnet *net.IPNet, mapID []byte, context Con
 	dlen += 2
 
 	// Find the maskLens
-	tmpmask, _ := ipnet.Mask.Size()
+	tmpmask, maskBits := ipnet.Mask.Size()
 	maxMask = uint8(tmpmask)
 
 	if ipnet.IP.To4() != nil {
-		// We only work with v6-mapped IPs
-		maxMask += 96
+		// We only work with v6-mapped IPs. A prefix length that already counts
+		// 128 bits (an IPv4-mapped address sent as an IPv6 one) needs no offset.
+		if maskBits == 8*net.IPv4len {
+			maxMask += 96
+		}
 		isv4 = true
 	}
 	// maskLens DB key: "\000/"
